@@ -67,8 +67,23 @@ def run_keys(ctx, pt):
             r = ctx.attempt(lambda: HMAC(H.make(a), key)(m))
             cls = 'long-key' if kl > bl else ('block-key' if kl == bl else 'short-key')
             ctx.eq('C13/%s/%s' % (a, cls), r, ('ok', rfc2104(a, key, m)))
-            if kl == 0 and m == b'abc':
-                continue
+            if kl in (0, 1, bl) and m and len(m) <= bl:
+                # HMAC serialises its message with bytes(): an object that defines __bytes__ (a crysp Bits, a user class) stands
+                # for those bytes, whatever iterating over it would give
+                from crysp.bits import Bits
+
+                class Wrapped(object):
+                    def __init__(self, b):
+                        self.b = b
+
+                    def __bytes__(self):
+                        return self.b
+
+                    def __iter__(self):
+                        return iter(b'something else entirely')
+                for mo in (Bits(m), Wrapped(m)):
+                    if bytes(mo) == m:
+                        ctx.eq('C13/%s/message-object-with-__bytes__' % a, ctx.attempt(lambda: HMAC(H.make(a), key)(mo)), ('ok', rfc2104(a, key, m)))
 
 
 class KeySys(HSystem):
